@@ -22,6 +22,10 @@ RULE = ('value spaces, each indexed 0..size-1 and enumerated completely for ever
         'with indent n every line break is followed by n x depth spaces. (inject) the whole enumerated set once more per '
         'indent in one process: equal texts imply equal values. A case is non-trivial when the text contains a string '
         'that needs escaping or holds one of . 0 , ] }, a number token with a fraction or exponent, or an object with >= 2 keys. '
+        '(keys) objects over 19 keys mixing canonical non-negative integers (0, 2, 9, 10, 100, 4294967295), near-integers (00, 01, -1, 1.0) and '
+        'keys that sort before / between / after digits: every ordered pair and every 3-subset in two insertion orders - keys must appear in '
+        'code-point order. (snippets) every string prefix + number + suffix (JSON punctuation around 0.0, 1.0, -2.0, 1.00, 10.0, 1.0e5, 1.5), bare '
+        'and inside a sentence, as value and as key. '
         '(history) for every array/object of depth <= 2 over a small alphabet, every target (top level / first nested container) and every '
         'documented mutator (arrayPush, arraySet, arrayPop, arrayShift, arrayDelete, arrayExtend, objectSet new/existing key, objectDelete, '
         'objectAssign), direct and inside a script: parse T, mutate, parse T, mutate, parse T - every result is the value of T and no two '
@@ -66,6 +70,15 @@ S5_SYNTAX = [' // x', 'see // below', '// x', 'a //', ' //', 'http://x/y', '/* x
              ' #x', 'a\n// b', '\n//', '\n // x\n', 'a\n# b', 'a\n/* b\n*/', '\t// x', '\r\n// x', '-- x', '; x', '<!-- x -->', "'x'",
              '{/* a */}', '[1, // one\n2]', '[1,]', '{"a":1,}', ', ]', ', }', ',\n]', 'a: 1', 'key: value', '{a: 1}', '\\u0041', '\\n',
              '\\x41', '$ref', '@x', '%7B', '&amp;', '${x}', '{{x}}']
+# object keys: canonical non-negative integers (an "array index keys first, in numeric order" serialiser orders them differently from
+# code-point order) next to keys that sort before, between and after digits
+KEY_ALPHABET = ['0', '2', '9', '10', '100', '00', '01', '-1', '1.0', '4294967295', '', ' ', '!', ',', '-', '.', 'a', 'A', '_']
+KEY_VALUES = [1.0, 'x', None]
+# number look-alikes inside strings with JSON punctuation around them
+SNIPPET_PREFIXES = ['', ',', ':', '[', ', ', ': ', '"', ' ']
+SNIPPET_NUMBERS = ['0.0', '1.0', '-2.0', '1.00', '10.0', '1.0e5', '1.5']
+SNIPPET_SUFFIXES = ['', ',', ']', '}', ' ', '"']
+SNIPPET_FRAMES = [('', ''), ('sizes: 1,', ',3 end')]
 CONTEXTS = ['top', 'arr-first', 'arr-last', 'arr-float', 'obj-value', 'obj-key', 'obj-mixed']
 LEAVES = [None, True, 1, 1.0, 1.5, -0.0, 1e+21, 's', 'a.0]']
 KEYS = ['b', 'a', 'a.0']
@@ -302,6 +315,35 @@ class NumberSpace:
         return [x, 's.0', x]
 
 
+class KeySpace:
+    """Objects with 2 keys (every ordered pair = both insertion orders) and 3 keys (every 3-subset, inserted in list order and reversed)."""
+
+    def __init__(self):
+        import itertools  # pylint: disable=import-outside-toplevel
+        n = len(KEY_ALPHABET)
+        self.items = [list(p) for p in itertools.permutations(range(n), 2)]
+        for c in itertools.combinations(range(n), 3):
+            self.items.append(list(c))
+            self.items.append(list(c)[::-1])
+        self.size = len(self.items)
+
+    def at(self, idx):
+        return {KEY_ALPHABET[k]: KEY_VALUES[i] for i, k in enumerate(self.items[idx])}
+
+
+class SnippetSpace:
+    size = 2 * 8 * 7 * 6 * 7
+
+    @staticmethod
+    def at(idx):
+        idx, ci = divmod(idx, len(CONTEXTS))
+        idx, si = divmod(idx, len(SNIPPET_SUFFIXES))
+        idx, ni = divmod(idx, len(SNIPPET_NUMBERS))
+        fi, pi = divmod(idx, len(SNIPPET_PREFIXES))
+        head, tail = SNIPPET_FRAMES[fi]
+        return in_context(head + SNIPPET_PREFIXES[pi] + SNIPPET_NUMBERS[ni] + SNIPPET_SUFFIXES[si] + tail, CONTEXTS[ci])
+
+
 def space(name, tier):
     key = (name, tier)
     if key in _CACHE:
@@ -323,6 +365,10 @@ def space(name, tier):
         sp = DeepSpace(PARAMS[tier]['deep'])
     elif name == 'numbers':
         sp = NumberSpace(tier)
+    elif name == 'keys':
+        sp = KeySpace()
+    elif name == 'snippets':
+        sp = SnippetSpace
     else:
         raise KeyError(name)
     _CACHE[key] = sp
@@ -338,7 +384,7 @@ def indents_of(name, tier):
 
 
 def family_names(tier):
-    return ['strings', 'flat', 'nested', 'deep', 'numbers'] + (['nested3'] if tier == 'thorough' else [])
+    return ['strings', 'keys', 'snippets', 'flat', 'nested', 'deep', 'numbers'] + (['nested3'] if tier == 'thorough' else [])
 
 
 # ---------------------------------------------------------------------------------------------------------------------
@@ -490,7 +536,7 @@ def fam_values(arg):
 # injectivity over the whole enumerated set
 
 
-INJECT_SPACES = ['strings', 'flat', 'nested', 'deep', 'numbers']
+INJECT_SPACES = ['strings', 'keys', 'snippets', 'flat', 'nested', 'deep', 'numbers']
 
 
 def inject_items(tier, indent):
@@ -1202,9 +1248,12 @@ def fam_indents(arg):
 
 def families(tier):
     fams = []
-    nshards = {'strings': 24, 'flat': 8, 'nested': 48, 'nested3': 64, 'deep': 8, 'numbers': 24}
+    nshards = {'strings': 24, 'keys': 8, 'snippets': 8, 'flat': 8, 'nested': 48, 'nested3': 64, 'deep': 8, 'numbers': 24}
     bounds = {
         'strings': f'{N_STRINGS} strings (length <= 4 over {"".join(S1_ALPHABET)!r}; length <= 4 over {"".join(S3_ALPHABET)!r}; length <= 2 over 13 special characters; 40 strings that look like dates, datetimes, literals, numbers or JSON texts; 45 that look like comments, trailing commas and other syntax around JSON) x {len(CONTEXTS)} contexts',
+        'keys': f'objects over the {len(KEY_ALPHABET)} keys {KEY_ALPHABET}: every ordered pair (both insertion orders) and every 3-subset inserted in list order and reversed',
+        'snippets': f'strings frame-head + prefix + number + suffix + frame-tail, prefix in {SNIPPET_PREFIXES}, number in {SNIPPET_NUMBERS}, suffix in {SNIPPET_SUFFIXES}, '
+                    f'frame in {SNIPPET_FRAMES}, each in the {len(CONTEXTS)} contexts (incl. object key)',
         'flat': '9 leaves; arrays of length <= 2 and objects over keys b, a, a.0 over the 9 leaves',
         'nested': 'arrays of length <= 2 and objects over keys b, a, a.0 ' + ('(at most 2 present) ' if tier == 'quick' else '')
                   + 'over 9 leaves + 77 depth-1 containers over {null, 1.0, "a.0]"}',
@@ -1257,6 +1306,10 @@ def expected_size(name, tier):
     """Closed forms, written independently of the index decoders."""
     if name == 'strings':
         return (1555 + 1434 + 162 + 40 + 45) * 7
+    if name == 'keys':
+        return 19 * 18 + (19 * 18 * 17 // 6) * 2
+    if name == 'snippets':
+        return 2 * 8 * 7 * 6 * 7
     if name == 'flat':
         return 9 + (1 + 9 + 81) + 10 ** 3
     if name == 'nested':
